@@ -218,6 +218,38 @@ def comparisons(body, O, include_compiler_checks=False):
                 if any(sx not in okr for sx in succ):
                     c.validating = True
             out.append(c)
+    # a comparison whose result is tested in a later block (`let unsigned = min >= 0; .. if unsigned`, the bool returned by an
+    # expanded helper): the switch that tests it - when there is exactly one - is the comparison's switch
+    pending = [c for c in out if c.switch_bb is None and c.dest is not None]
+    if pending:
+        by_dest = {}
+        for c in pending:
+            by_dest.setdefault(c.dest, []).append(c)
+        uses = {}
+        for sbb, t in body.switches():
+            op = t["op"]
+            if op.get("k") not in ("copy", "move") or op["pl"]["p"]:
+                continue
+            l = op["pl"]["l"]
+            for _ in range(4):
+                if l in by_dest:
+                    break
+                ds = body.defs.get(l, ())
+                if len(ds) == 1 and ds[0][2] == "assign" and ds[0][3]["k"] == "use" and ds[0][3]["op"].get("k") in ("copy", "move") \
+                        and not ds[0][3]["op"]["pl"]["p"]:
+                    l = ds[0][3]["op"]["pl"]["l"]
+                else:
+                    break
+            if l in by_dest and len(body.defs.get(l, ())) == 1:
+                uses.setdefault(l, []).append(sbb)
+        for l, sbbs in uses.items():
+            if len(sbbs) == 1 and len(by_dest[l]) == 1:
+                c = by_dest[l][0]
+                c.switch_bb = sbbs[0]
+                if okr is None:
+                    okr = ok_reaching(body)
+                if any(sx not in okr for sx in body.succ[sbbs[0]]):
+                    c.validating = True
     return out
 
 
